@@ -72,6 +72,34 @@ pub fn universe(name: &str) -> Vec<Key> {
             v.dedup();
             v
         }
+        // WRK — keys placed by their root-child index (first six bits) on both sides of the
+        // boundaries between the key ranges of 3, 5, 6 and 7 merkle workers (22|43, 13|26|39, 11|22|33,
+        // 10|19|28), so that one terminal of a small trie spans several workers' ranges and a worker
+        // has keys both inside and outside that terminal's sub-trie
+        "WRK" => [5u8, 12, 13, 21, 22, 23, 28, 35, 43, 63]
+            .iter()
+            .map(|i| {
+                let mut k = [0u8; 32];
+                k[0] = i << 2;
+                k[31] = 0x5a;
+                k
+            })
+            .collect(),
+        // ROUND — a "round" key (prefix, a one bit, then only zero bits) next to a sub-trie on its
+        // left: L and W below prefix 010, R = 0110…0, R2 = 10…0, X elsewhere (sorted: L W R R2 X)
+        "ROUND" => {
+            let mut l = [0x33u8; 32];
+            l[0] = 0x45;
+            let mut w = [0x11u8; 32];
+            w[0] = 0x4a;
+            let mut r = [0u8; 32];
+            r[0] = 0x60;
+            let mut r2 = [0u8; 32];
+            r2[0] = 0x80;
+            let mut x = [0x77u8; 32];
+            x[0] = 0xc3;
+            vec![l, w, r, r2, x]
+        }
         // PAIRS:<k> — k pairs of keys; pair i shares the 6-bit prefix i (so each pair needs its
         // own depth-1 merkle page) and differs at bit 7
         n if n.starts_with("PAIRS:") => {
@@ -150,6 +178,11 @@ pub fn seed_keys(name: &str) -> Vec<Key> {
             let mut k = [0x44u8; 32];
             k[0] = 0x90;
             vec![k]
+        }
+        // the on-disk part of the ROUND universe: L and X
+        "round" => {
+            let u = universe("ROUND");
+            vec![u[0], u[4]]
         }
         // 1500 keys sharing 30 bytes with 1300-byte values: 500 leaves, twice what a 1 MiB leaf
         // cache holds, so with `leaf_cache: 1` every shard of the cache is over its budget
